@@ -119,6 +119,18 @@ CLAIMS['C13'] = dict(
     note='Trusted: clang 14 front end/CFG.',
     ref='5 (C13)')
 
+CLAIMS['C04'] = dict(
+    technique='reader/writer conformance against the manual\'s record schema, must-pass/dominance queries on the CFG, dimension (bytes vs address units) checking',
+    text=('Decides: the record header writer emits type, CPU family, segment, granularity, 4-byte start, 2-byte length '
+          'in the order and widths of the manual\'s schema and the readers take them in the same order; segment numbers '
+          'equal the manual\'s table; in WriteBytes the 65535-byte limit test precedes every store, every stored line is '
+          'added to the record length once, the byte swap is undone; every seek/tell/close on the code file follows a '
+          'flush; byte and address-unit quantities are combined only through the granularity; only asmcode.c writes the '
+          'file; buffer copies are bounded. That the union of records equals the program\'s bytes for every length and '
+          'interleaving is not decided.'),
+    note='Trusted: clang 14 front end/CFG; doc/file-formats.md as schema oracle; the dimension table in rules/c04.py.',
+    ref='5 (C04), 4 (A8, A3)')
+
 NA_REASONS = {}
 
 
